@@ -253,6 +253,30 @@ def run_case(case):
             out["idempotent_detail"] = "clean(r)=%r, r=%r" % (r3, r1)
     out["pure"] = snapshot(v) == before and prog_before == (
         prog.working_dir, list(prog.commands.items()), [(c.is_finished, id(c._result)) for c in prog.commands.values()])
+    # cleaning must not leave state behind in the parameter object either: the used instance and a fresh one agree
+    # on a second program (another working directory, no commands)
+    tmp2 = tempfile.mkdtemp(prefix="vclean2")
+    try:
+        prog2 = Prog()
+        prog2.working_dir = tmp2 if case.get("working_dir") is not None else None
+        prog2.commands = dict(prog.commands)
+        fresh = build_param(env.params, {"cls": case["cls"], "ctor": case.get("ctor", {})})
+
+        def call2(p):
+            try:
+                return ("return", p.clean(v, prog2, 7))
+            except Exception as e:  # noqa
+                return ("raise", type(e).__name__)
+
+        ku, ru = call2(param)
+        kf, rf = call2(fresh)
+        if not (ku == kf and (same(ru, rf) if ku == "return" else ru == rf)):
+            out["pure"] = False
+            out["history_detail"] = "a used parameter object answers %r, a fresh one %r" % ((ku, ru), (kf, rf))
+    finally:
+        import shutil as _sh
+
+        _sh.rmtree(tmp2, ignore_errors=True)
     if tmp:
         import shutil
 
